@@ -200,6 +200,77 @@ struct Runner {
   }
 };
 
+
+// ---- Pointset_Powerset<Grid>: geometric predicates and difference (judged by sampling + the verified grid reference) ----
+struct GridRunner {
+  typedef Pointset_Powerset<Grid> PS;
+  std::map<int, PS*> pool;
+  ~GridRunner() { clear(); }
+  void clear() { for (std::map<int, PS*>::iterator i = pool.begin(); i != pool.end(); ++i) delete i->second; pool.clear(); }
+  PS& get(int id) { std::map<int, PS*>::iterator i = pool.find(id); if (i == pool.end()) throw std::runtime_error("case: unknown object"); return *i->second; }
+  void put(int id, PS* p) { std::map<int, PS*>::iterator i = pool.find(id); if (i != pool.end()) { delete i->second; i->second = p; } else pool[id] = p; }
+  void print_all() {
+    for (std::map<int, PS*>::iterator i = pool.begin(); i != pool.end(); ++i) {
+      const PS& x = *i->second;
+      std::cout << "st " << i->first << " G " << x.space_dimension() << " " << (x.reduced ? 1 : 0) << " " << x.sequence.size() << " " << (x.OK() ? 1 : 0);
+      for (PS::Sequence::const_iterator j = x.sequence.begin(); j != x.sequence.end(); ++j) {
+        Grid c(j->prep->pset);
+        std::cout << " | " << c.space_dimension() << " " << (c.is_empty() ? 1 : 0) << " ";
+        Grid c2(j->prep->pset); print_cgs(std::cout, c2.congruences(), c2.space_dimension());
+      }
+      std::cout << "\n";
+    }
+    std::cout << "endst\n";
+  }
+  Grid read_grid(Toks& tk, unsigned dim) {
+    std::string how = tk.next();
+    if (how == "cgs") return Grid(read_cgs(tk, dim));
+    if (how == "empty") return Grid(dim, EMPTY);
+    if (how == "universe") return Grid(dim, UNIVERSE);
+    throw std::runtime_error("case: bad grid " + how);
+  }
+  void line(const std::string& cmd, Toks& tk) {
+    if (cmd == "new" || cmd == "copy" || cmd == "op") {
+      try {
+        if (cmd == "new") { int id = tk.nextl(); unsigned dim = tk.nextl(); std::string how = tk.next(); put(id, new PS(dim, how == "universe" ? UNIVERSE : EMPTY)); }
+        else if (cmd == "copy") { int id = tk.nextl(); put(id, new PS(get(tk.nextl()))); }
+        else {
+          int id = tk.nextl(); PS& x = get(id); std::string op = tk.next(); unsigned dim = x.space_dimension();
+          if (op == "add_disjunct") x.add_disjunct(read_grid(tk, dim));
+          else if (op == "omega_reduce") x.omega_reduce();
+          else if (op == "pairwise_reduce") x.pairwise_reduce();
+          else if (op == "difference_assign") x.difference_assign(get(tk.nextl()));
+          else if (op == "intersection_assign") x.intersection_assign(get(tk.nextl()));
+          else if (op == "upper_bound_assign") x.upper_bound_assign(get(tk.nextl()));
+          else if (op == "assign") x = get(tk.nextl());
+          else throw std::runtime_error("case: unknown grid op " + op);
+        }
+        std::cout << "res ok\n";
+      } catch (const std::exception& e) {
+        if (std::string(e.what()).substr(0, 5) == "case:") throw;
+        std::cout << "res exn " << exn_class(e) << "\n";
+      }
+      print_all();
+    }
+    else if (cmd == "qry") {
+      try {
+        int id = tk.nextl(); const PS& x = get(id); std::string q = tk.next(); bool b;
+        if (q == "geometrically_covers") b = x.geometrically_covers(get(tk.nextl()));
+        else if (q == "geometrically_equals") b = x.geometrically_equals(get(tk.nextl()));
+        else if (q == "check_containment") { Grid g = read_grid(tk, x.space_dimension()); b = check_containment(g, x); }   // is g inside the union x ?
+        else if (q == "contains") b = x.contains(get(tk.nextl()));
+        else if (q == "is_disjoint_from") b = x.is_disjoint_from(get(tk.nextl()));
+        else if (q == "is_empty") b = x.is_empty();
+        else if (q == "OK") b = x.OK();
+        else throw std::runtime_error("case: unknown grid query " + q);
+        std::cout << "ans b " << (b ? 1 : 0) << "\n";
+      } catch (const std::exception& e) { if (std::string(e.what()).substr(0, 5) == "case:") throw; std::cout << "ans exn " << exn_class(e) << "\n"; }
+      print_all();
+    }
+    else throw std::runtime_error("case: unknown command " + cmd);
+  }
+};
+
 // a Throwable that is never thrown: raises the abandon flag without making the components give up
 struct Never_Thrown : public Throwable { void throw_me() const {} ~Never_Thrown() {} };
 static Never_Thrown never_thrown;
@@ -208,13 +279,14 @@ struct Hurry { Hurry() { abandon_expensive_computations = &never_thrown; } ~Hurr
 int main(int argc, char** argv) {
   if (argc < 2) { std::cerr << "usage: run_pset casefile\n"; return 2; }
   std::ifstream in(argv[1]); std::string ln;
-  Runner<C_Polyhedron> rc; Runner<NNC_Polyhedron> rn; bool nnc = false;
+  Runner<C_Polyhedron> rc; Runner<NNC_Polyhedron> rn; GridRunner rg; bool nnc = false, grid = false;
   while (std::getline(in, ln)) {
     Toks tk(ln); if (!tk.more()) continue;
     std::string cmd = tk.next();
     if (cmd[0] == '#') continue;
     try {
-      if (cmd == "case") { rc.clear(); rn.clear(); std::cout << "case " << tk.next() << "\n"; nnc = (tk.next() == "NNC"); }
+      if (cmd == "case") { rc.clear(); rn.clear(); rg.clear(); std::cout << "case " << tk.next() << "\n"; std::string tp = tk.next(); nnc = (tp == "NNC"); grid = (tp == "G"); }
+      else if (grid && cmd != "end") rg.line(cmd, tk);
       else if (cmd == "end") std::cout << "end\n";
       else if (cmd == "hurry") {   // the rest of the line is executed with abandon_expensive_computations raised
         std::string c2 = tk.next();
